@@ -49,7 +49,10 @@ META = {
         "R6: for each heading node render_heading creates (section whose title is a nodes.title child; rubric that is its own title) the "
         "resolver's title extraction has a case on the same subject (the node itself / a child of that class). "
         "R7: the key under which a heading enters the slug registry was tested absent from the registry after its last assignment on "
-        "every path (compute_unique_slug), so no heading overwrites another heading's anchor."
+        "every path (compute_unique_slug), so no heading overwrites another heading's anchor. "
+        "R8: between the per-parse reset and its export as document.myst_slugs the slug registry only grows (no re-binding to a snapshot, "
+        "no removal of entries). Also: the link text is percent-decoded (normalizeLinkText) by the writer or by every caller of "
+        "render_link_anchor (R2), and the slug registry - keyed by the slug function's output as is - is probed with the exact link text (R4)."
     ),
     "not_decided": (
         "which node a given name resolves to at run time (contents of document.nametypes/nameids/ids and myst_slugs for a concrete "
@@ -122,6 +125,33 @@ def _closure(fi: FunctionInfo, expr: ast.AST) -> list[ast.AST]:
     return out
 
 
+def _derives_reaching(fi: FunctionInfo, expr: ast.AST, at: ast.AST, pred) -> bool:
+    """Like ``_derives`` but only through bindings whose statement can reach the statement of ``at`` in the CFG."""
+    cfg = get_cfg(fi)
+    try:
+        goal = cfg.stmt_of(at)
+    except Unsupported:
+        return _derives(fi, expr, pred)
+    seen: set[str] = set()
+    work: list[ast.AST] = [expr]
+    while work:
+        e = work.pop()
+        if any(pred(x) for x in ast.walk(e)):
+            return True
+        for nm in [n.id for n in ast.walk(e) if isinstance(n, ast.Name)]:
+            if nm in seen:
+                continue
+            seen.add(nm)
+            for val, _, st in _bindings(fi, nm):
+                try:
+                    b = cfg.stmt_of(st)
+                except Unsupported:
+                    continue
+                if b is goal or goal in cfg.reachable_from(b):
+                    work.append(val)
+    return False
+
+
 def _derives(fi: FunctionInfo, expr: ast.AST, pred) -> bool:
     return any(pred(sub) for e in _closure(fi, expr) for sub in ast.walk(e))
 
@@ -145,6 +175,13 @@ def _iter_source(fi: FunctionInfo, it: ast.expr) -> ast.expr:
         if len(b) == 1:
             return b[0]
     return it
+
+
+def _ancestors(n: ast.AST):
+    p = getattr(n, "_parent", None)
+    while p is not None:
+        yield p
+        p = getattr(p, "_parent", None)
 
 
 def _mentions_name(expr: ast.AST, name: str) -> bool:
@@ -358,6 +395,37 @@ def _hash_fact(fi: FunctionInfo, e: ast.expr) -> ast.expr | None:
     return None
 
 
+_PREFIX_PRESERVING = ("normalizeLinkText", "str", "cast", "rstrip")
+
+
+def _unwrap_prefix_preserving(e: ast.AST | None) -> ast.AST | None:
+    """X for ``self.md.normalizeLinkText(X)`` / ``str(X)`` / ``cast(str, X)`` (calls that keep a leading '#')."""
+    while isinstance(e, ast.Call) and e.args and (dotted(e.func) or "").rsplit(".", 1)[-1] in _PREFIX_PRESERVING:
+        e = e.args[-1] if (dotted(e.func) or "").rsplit(".", 1)[-1] == "cast" else e.args[0]
+    return e
+
+
+def _arg_is_tested(fi: FunctionInfo, arg: ast.AST | None, tested: set[str]) -> bool:
+    """``arg`` is one of the tested '#'-prefixed expressions, possibly behind prefix-preserving calls / single-bound locals."""
+    e = arg
+    for _ in range(6):
+        if e is None:
+            return False
+        if unparse(e) in tested:
+            return True
+        u = _unwrap_prefix_preserving(e)
+        if u is not e:
+            e = u
+            continue
+        if isinstance(e, ast.Name):
+            b = [v for v, i, st in _bindings(fi, e.id) if i is None and not isinstance(st, (ast.For, ast.comprehension))]
+            if len(b) == 1:
+                e = b[0]
+                continue
+        return False
+    return False
+
+
 def _guard_key(fi: FunctionInfo, guards) -> str:
     """Line-free discriminator of a dispatch call: the branch conditions it sits under (minus the '#' test itself)."""
     parts = sorted({("" if p else "not ") + short(e, 48) for e, p in guards if _hash_fact(fi, e) is None})
@@ -388,7 +456,7 @@ def r1_dispatch(corpus: Corpus, rep: Report, tier: str):
                 arg = call.args[1] if len(call.args) > 1 else kwarg(call, "target")
                 if not recv:
                     rep.violation(R1, k, site, "render_link_anchor is called without a dominating `href.startswith('#')` test: non-'#' links are marked as local id links")
-                elif arg is None or unparse(arg) not in {unparse(r) for r in recv}:
+                elif not _arg_is_tested(fi, arg, {unparse(r) for r in recv}):
                     rep.violation(R1, k, site, f"render_link_anchor must receive the '#'-prefixed href that was tested ({', '.join(unparse(r) for r in recv)}); got `{short(arg, 40) if arg is not None else 'nothing'}` - ResolveAnchorIds strips exactly one leading character")
                 else:
                     anchors += 1
@@ -461,7 +529,7 @@ def r1_dispatch(corpus: Corpus, rep: Report, tier: str):
                 arg = n.args[1] if len(n.args) > 1 else kwarg(n, "target")
                 if not recv:
                     rep.violation(R1, k, site, "render_link_anchor is called without a dominating `destination.startswith('#')` test")
-                elif arg is None or unparse(arg) not in {unparse(r) for r in recv}:
+                elif not _arg_is_tested(fi, arg, {unparse(r) for r in recv}):
                     rep.violation(R1, k, site, f"render_link_anchor must receive the '#'-prefixed destination that was tested; got `{short(arg, 40) if arg is not None else 'nothing'}`")
                 else:
                     anchor_ok = True
@@ -554,13 +622,28 @@ class Resolver:
         if self.slugs is None:
             raise Unsupported("the slug registry (document.myst_slugs) is not read into a local")
         self.explicit = None
+        probed = set()
+        for n in self.body:
+            if isinstance(n, ast.Compare) and len(n.ops) == 1 and isinstance(n.ops[0], (ast.In, ast.NotIn)) and isinstance(n.comparators[0], ast.Name):
+                probed.add(n.comparators[0].id)
+            elif isinstance(n, ast.Subscript) and isinstance(n.value, ast.Name) and isinstance(n.ctx, ast.Load):
+                probed.add(n.value.id)
+            elif isinstance(n, ast.Call) and isinstance(n.func, ast.Attribute) and n.func.attr == "get" and isinstance(n.func.value, ast.Name):
+                probed.add(n.func.value.id)
+        probed -= {self.slugs, self.var}
+        cands = []
         for n in fi.local_nodes():
-            if isinstance(n, ast.For) and n is not self.loop and any(isinstance(c, ast.Attribute) and c.attr == "nametypes" for c in ast.walk(_iter_source(fi, n.iter))):
+            if isinstance(n, ast.For) and n is not self.loop and not any(a is self.loop for a in _ancestors(n)):
+                src_it = _iter_source(fi, n.iter)
+                if not any(isinstance(c, ast.Attribute) and c.attr in ("nametypes", "nameids", "ids", "document") for c in ast.walk(src_it)):
+                    continue
                 for s in walk_local(n):
-                    if isinstance(s, ast.Assign) and isinstance(s.targets[0], ast.Subscript) and isinstance(s.targets[0].value, ast.Name):
-                        self.explicit, self.explicit_loop, self.explicit_store = s.targets[0].value.id, n, s
+                    if isinstance(s, ast.Assign) and isinstance(s.targets[0], ast.Subscript) and isinstance(s.targets[0].value, ast.Name) and s.targets[0].value.id in probed:
+                        cands.append((s.targets[0].value.id, n, s))
+        if len({c[0] for c in cands}) == 1 and len(cands) == 1:
+            self.explicit, self.explicit_loop, self.explicit_store = cands[0]
         if self.explicit is None:
-            raise Unsupported("the explicit-name registry (loop over document.nametypes) was not recognised")
+            raise Unsupported(f"the explicit-name registry (a dict filled in a loop over the document's name tables and probed in the reference loop) was not recognised ({len(cands)} candidate stores)")
         # inside the loop the registries may only be used as `K in R`, `K not in R`, `R[K]` (anything else: unknown idiom)
         for n in self.body:
             if isinstance(n, ast.Name) and n.id in (self.explicit, self.slugs):
@@ -817,6 +900,37 @@ def r2_attribute_agreement(corpus: Corpus, rep: Report, tier: str):
             rep.violation(R2, k, site, f"the writer slices the target (`{short(v, 40)}`) although the reader strips the leading '#' itself")
         else:
             rep.ok(R2, k, site, f"{rs.uri_key} = {short(v, 40)}")
+        # the registries are keyed by source text; markdown-it percent-encodes hrefs: the stored URI must be decoded
+        # (normalizeLinkText) either by the writer or by every caller
+        def is_decode(x: ast.AST) -> bool:
+            return isinstance(x, ast.Call) and (dotted(x.func) or "").rsplit(".", 1)[-1] == "normalizeLinkText"
+
+        if v is not None:
+            in_writer = _derives(w, v, is_decode)
+            sites = []
+            for g in corpus.all_functions():
+                if g.is_lambda:
+                    continue
+                for c in g.local_nodes():
+                    if isinstance(c, ast.Call) and _self_call(c) == w.name:
+                        sites.append((g, c))
+            if not sites:
+                raise Unsupported(f"no call site of {w.qualname} found")
+            for g, c in sites:
+                a = c.args[1] if len(c.args) > 1 else kwarg(c, tparam or "target")
+                kk = f"{g.fq}|{short(c, 60)}: link text is percent-decoded before it is stored"
+                if in_writer:
+                    rep.ok(R2, kk, g.module.site(c), f"decoded in {w.qualname}")
+                elif a is not None and _derives_reaching(g, a, c, is_decode):
+                    rep.ok(R2, kk, g.module.site(c), "decoded by the caller")
+                else:
+                    rep.violation(
+                        R2,
+                        kk,
+                        g.module.site(c),
+                        f"`{short(c, 60)}` hands over the href as markdown-it percent-encoded it and {w.qualname} stores it undecoded (`{rs.uri_key} = {short(v, 30)}`): "
+                        "a name with non-ASCII letters or spaces (<project:#überschrift>) is looked up as '%C3%BCberschrift', reported missing and given a wrong refid",
+                    )
         k = f"{w.fq}|line stamped on the reference"
         stamped = any(isinstance(n, ast.Call) and _self_call(n) == "add_line_and_source_path" and n.args and isinstance(n.args[0], ast.Name) and n.args[0].id == nv for n in w.local_nodes())
         stamped = stamped or any(isinstance(n, ast.Assign) and any(isinstance(t, ast.Attribute) and t.attr == "line" and isinstance(t.value, ast.Name) and t.value.id == nv for t in n.targets) for n in w.local_nodes())
@@ -968,6 +1082,7 @@ def _registry_writer_positions(corpus: Corpus, rs: Resolver) -> dict[str, dict[s
         raise Unsupported(f"slug registry tuple `{short(n.value, 50)}`: id/title positions not recognised ({pos})")
     out["slugs"] = pos
     out["_sites"] = {"explicit": rs.m.site(rs.explicit_store), "slugs": f.module.site(n)}  # type: ignore[assignment]
+    out["_writer"] = {"slugs": (f, n)}  # type: ignore[assignment]
     return out
 
 
@@ -1410,6 +1525,37 @@ def r4_key_normalisation(corpus: Corpus, rep: Report, tier: str):
         rep.violation(R4, k, site, "the registry is keyed by raw names but only probed with normalised keys")
     else:
         rep.ok(R4, k, site)
+    # the slug registry is keyed by the slug function's output as is (user-replaceable heading_slug_func, case-sensitive):
+    # it must be probed with the exact link text unless its writer normalises too
+    sprobes = []
+    for n in rs.body:
+        if isinstance(n, ast.Compare) and len(n.ops) == 1 and isinstance(n.ops[0], (ast.In, ast.NotIn)) and isinstance(n.comparators[0], ast.Name) and n.comparators[0].id == rs.slugs:
+            sprobes.append((n, n.left))
+        elif isinstance(n, ast.Call) and isinstance(n.func, ast.Attribute) and n.func.attr == "get" and isinstance(n.func.value, ast.Name) and n.func.value.id == rs.slugs and n.args:
+            sprobes.append((n, n.args[0]))
+        elif isinstance(n, ast.Subscript) and isinstance(n.value, ast.Name) and n.value.id == rs.slugs and isinstance(n.ctx, ast.Load):
+            sprobes.append((n, n.slice))
+    if not sprobes:
+        raise Unsupported("no probe of the slug registry in the reference loop")
+    wpos = _registry_writer_positions(corpus, rs)
+    sw_f, sw_store = wpos["_writer"]["slugs"]  # type: ignore[index]
+    writer_norm = _key_kind(sw_f, sw_store.targets[0].slice) == "norm"
+    for n, e in sprobes:
+        kk = f"{fi.fq}|slug registry probe `{short(n, 40)}` uses the exact link text"
+        kind = _key_kind(fi, e)
+        if kind == "unknown":
+            rep.error(R4, f"{m.site(n)}: lookup key of `{short(n, 40)}` passes through a call that is not understood")
+        elif (kind == "norm") == writer_norm:
+            rep.ok(R4, kk, m.site(n), "exact link text" if kind == "raw" else "normalised like the writer")
+        else:
+            rep.violation(
+                R4,
+                kk,
+                m.site(n),
+                f"`{short(n, 40)}` looks the slug up under a lower-cased / whitespace-collapsed key, but document.myst_slugs is keyed by the slug exactly as the slug function "
+                f"returned it ({sw_f.module.site(sw_store)}): a case variant `#Setup-Guide` of the slug 'setup-guide' resolves silently instead of warning, and with a "
+                "case-preserving heading_slug_func the exact slug is reported missing",
+            )
     rep.expect_min(R4, 4, "explicit-name writers (MyST target, attribute id, math label, directive name option) + the reader")
 
 
@@ -1831,7 +1977,87 @@ def r7_slug_key_fresh(corpus: Corpus, rep: Report, tier: str):
     rep.expect_min(R7, 1, "the slug registry writer")
 
 
-RULES = [r1_dispatch, r2_attribute_agreement, r3_loop_paths, r4_key_normalisation, r5_explicit_only, r6_title_extraction, r7_slug_key_fresh]
+# ---------------------------------------------------------------------------
+# R8 the slug registry only grows during a parse
+
+
+@rule("C09.R8")
+def r8_slug_registry_monotone(corpus: Corpus, rep: Report, tier: str):
+    R8 = "C09.R8"
+    rep.rule(R8, "between the per-parse reset and the export as document.myst_slugs the slug registry only grows: no re-binding to an older/other object, no removal of entries")
+    base = corpus.mod(BASE)
+    export = None
+    for f in base.functions.values():
+        if f.is_lambda:
+            continue
+        for n in f.local_nodes():
+            if isinstance(n, ast.Assign) and any(isinstance(t, ast.Attribute) and t.attr == "myst_slugs" for t in n.targets) and isinstance(n.value, ast.Attribute):
+                export = n.value.attr
+    if export is None:
+        raise AnchorMissing("no `document.myst_slugs = self.<attr>` export in mdit_to_docutils.base")
+
+    def is_reg(e: ast.AST) -> bool:
+        return isinstance(e, ast.Attribute) and e.attr == export
+
+    def empty_literal(v: ast.AST | None) -> bool:
+        return (isinstance(v, ast.Dict) and not v.keys) or (isinstance(v, ast.Call) and dotted(v.func) in ("dict", "OrderedDict") and not v.args and not v.keywords)
+
+    def keeps_all(v: ast.AST | None) -> bool:
+        """the new value contains the old registry wholesale: {**reg, ...}, dict(reg, ...), reg | {...}, reg.copy()"""
+        if isinstance(v, ast.Dict):
+            return any(k is None and is_reg(x) for k, x in zip(v.keys, v.values))
+        if isinstance(v, ast.Call) and dotted(v.func) == "dict" and v.args and is_reg(v.args[0]):
+            return True
+        if isinstance(v, ast.Call) and isinstance(v.func, ast.Attribute) and v.func.attr == "copy" and is_reg(v.func.value) :
+            return True
+        if isinstance(v, ast.BinOp) and isinstance(v.op, ast.BitOr):
+            return is_reg(v.left) or keeps_all(v.left) or is_reg(v.right) or keeps_all(v.right)
+        return False
+
+    resets = 0
+    n_inst = 0
+    for f in corpus.all_functions():
+        if f.is_lambda:
+            continue
+        for n in f.local_nodes():
+            site = f.module.site(n)
+            if isinstance(n, (ast.Assign, ast.AnnAssign, ast.AugAssign)):
+                targets = n.targets if isinstance(n, ast.Assign) else [n.target]
+                flat = [x for t in targets for x in (t.elts if isinstance(t, (ast.Tuple, ast.List)) else [t])]
+                if not any(is_reg(t) for t in flat):
+                    continue
+                v = n.value
+                if v is None:
+                    continue
+                n_inst += 1
+                k = f"{f.fq}|{short(n, 70)}"
+                if empty_literal(v) and f.name in ("__init__", "setup_render"):
+                    resets += 1
+                    rep.ok(R8, k, site, "per-parse reset to an empty registry")
+                elif keeps_all(v) or (isinstance(n, ast.AugAssign) and isinstance(n.op, ast.BitOr)):
+                    rep.ok(R8, k, site, "the new value contains every old entry")
+                else:
+                    rep.violation(
+                        R8,
+                        k,
+                        site,
+                        f"`{short(n, 60)}` re-binds the slug registry in {f.qualname} to "
+                        + ("an empty registry" if empty_literal(v) else f"`{short(v, 30)}` (a snapshot / another object)")
+                        + ": slugs registered since then are forgotten although their headings stay in the document - `[](#slug)` links to them get a 'target not found' warning, "
+                        "and a later heading with the same title re-uses the slug",
+                    )
+            elif isinstance(n, ast.Call) and isinstance(n.func, ast.Attribute) and is_reg(n.func.value) and n.func.attr in ("pop", "popitem", "clear", "__delitem__"):
+                n_inst += 1
+                rep.violation(R8, f"{f.fq}|{short(n, 70)}", site, f"`{short(n, 60)}` removes entries from the slug registry during the parse: `[](#slug)` links to the removed heading(s) no longer resolve")
+            elif isinstance(n, ast.Delete) and any((isinstance(t, ast.Subscript) and is_reg(t.value)) or is_reg(t) for t in n.targets):
+                n_inst += 1
+                rep.violation(R8, f"{f.fq}|{short(n, 70)}", site, f"`{short(n, 60)}` removes entries from the slug registry during the parse")
+    if resets == 0:
+        rep.error(R8, f"no per-parse reset `self.{export} = {{}}` found in __init__/setup_render")
+    rep.expect_min(R8, 1, "the per-parse reset of the slug registry")
+
+
+RULES = [r1_dispatch, r2_attribute_agreement, r3_loop_paths, r4_key_normalisation, r5_explicit_only, r6_title_extraction, r7_slug_key_fresh, r8_slug_registry_monotone]
 
 
 # ---------------------------------------------------------------------------
@@ -2050,4 +2276,63 @@ def mutants(corpus: Corpus):
         add("c09-slug-truncated-after-uniquifier", "C09.R7", base, splice(base.src, ret, f"{x} = {x}[:64]\n" + _indent(base, ret) + _seg(base, ret)), "compute_unique_slug")
     else:
         out.append(("c09-uniquifier-if-instead-of-while", "no `while cand in slugs` loop in compute_unique_slug"))
+    # ---- R2: percent-decoding of the link text (writer or every caller) --------------------------------
+    dec = find_node(ra, lambda n: isinstance(n, ast.Call) and (dotted(n.func) or "").endswith("normalizeLinkText"))
+    anc = find_node(rl, lambda n: _self_call(n) == "render_link_anchor")
+    if dec is not None and dec.args:
+        add("c09-link-text-not-decoded", R2, base, splice(base.src, dec, _seg(base, dec.args[0])), "percent-decoded")
+        if anc is not None and len(anc.args) > 1 and anc.lineno < dec.lineno:
+            moved = splice(base.src, dec, _seg(base, dec.args[0]))
+            moved = splice(moved, anc.args[1], f"self.md.normalizeLinkText({_seg(base, anc.args[1])})")
+            add("c09-decode-moved-to-one-caller", R2, base, moved, "render_link_project")
+        pj = base.func("DocutilsRenderer.render_link_project")
+        anc2 = find_node(pj, lambda n: _self_call(n) == "render_link_anchor")
+        if anc2 is not None and len(anc2.args) > 1 and anc2.lineno < dec.lineno:
+            moved = splice(base.src, dec, _seg(base, dec.args[0]))
+            moved = splice(moved, anc2.args[1], f"self.md.normalizeLinkText({_seg(base, anc2.args[1])})")
+            add("c09-decode-only-in-project-caller", R2, base, moved, "render_link|")
+    else:
+        out.append(("c09-link-text-not-decoded", "render_link_anchor does not decode on this tree"))
+    # ---- R4: slug registry probed with a normalised key ---------------------------------------------------
+    if s_if is not None:
+        norm_name = find_node(f, lambda n: isinstance(n, ast.Assign) and isinstance(n.targets[0], ast.Name) and _is_normaliser(f)(n.value))
+        sub = find_node(f, lambda n: isinstance(n, ast.Subscript) and isinstance(n.value, ast.Name) and n.value.id == rs.slugs and isinstance(n.ctx, ast.Load))
+        if norm_name is not None and sub is not None and isinstance(s_if.test, ast.Compare):
+            nm = norm_name.targets[0].id
+            both = splice(tr.src, sub.slice, nm)
+            both = splice(both, s_if.test.left, nm)
+            add("c09-slug-lookup-normalised", R4, tr, both, "slug registry probe")
+        if isinstance(s_if.test, ast.Compare):
+            add("c09-slug-test-lowercased", R4, tr, splice(tr.src, s_if.test.left, _seg(tr, s_if.test.left) + ".lower()"), "slug registry probe")
+    # ---- R5: registry filled from a table that carries no explicit flag ----------------------------------------
+    if isinstance(lp.target, ast.Tuple) and len(lp.target.elts) == 2 and isinstance(lp.iter, ast.Call) and flt is not None and isinstance(lp.iter.func, ast.Attribute):
+        recv = lp.iter.func.value
+        if isinstance(recv, ast.Attribute) and recv.attr == "nametypes":
+            new_src = splice(tr.src, flt, "pass")
+            new_src = splice(new_src, lp.iter, _seg(tr, lp.iter).replace("nametypes", "nameids"))
+            new_src = splice(new_src, lp.target.elts[1], "_labelid")
+            add("c09-registry-from-nameids", R5, tr, new_src, "flagged explicit")
+    # ---- R8: the slug registry loses entries during the parse -------------------------------------------------
+    nrt = base.func("DocutilsRenderer.nested_render_text")
+    snap = None
+    rest = None
+    for g in base.functions.values():
+        if g.qualname.startswith(nrt.qualname) and not g.is_lambda:
+            for n in g.local_nodes():
+                if isinstance(n, ast.Assign) and isinstance(n.targets[0], ast.Name) and "_level_to_section" in unparse(n.value) and snap is None:
+                    snap = n
+                if isinstance(n, ast.Assign) and isinstance(n.targets[0], ast.Attribute) and n.targets[0].attr == "_level_to_section" and isinstance(n.value, ast.Name) and rest is None:
+                    rest = n
+    if snap is not None and rest is not None and snap.lineno < rest.lineno:
+        new_src = splice(base.src, rest, _seg(base, rest) + "\n" + _indent(base, rest) + "self._heading_slugs = _saved_slugs")
+        new_src = splice(new_src, snap, _seg(base, snap) + "\n" + _indent(base, snap) + "_saved_slugs = dict(self._heading_slugs)")
+        add("c09-slug-registry-restored-after-nested-parse", "C09.R8", base, new_src, "_heading_slugs")
+    else:
+        out.append(("c09-slug-registry-restored-after-nested-parse", "snapshot/restore of _level_to_section not found in nested_render_text"))
+    first = nrt.node.body[1] if isinstance(nrt.node.body[0], ast.Expr) and isinstance(nrt.node.body[0].value, ast.Constant) else nrt.node.body[0]
+    add("c09-slug-registry-cleared-per-nested-parse", "C09.R8", base, splice(base.src, first, "if temp_root_node is not None:\n" + _indent(base, first) + "    self._heading_slugs.clear()\n" + _indent(base, first) + _seg(base, first)), "_heading_slugs")
+    ght = base.func("DocutilsRenderer.generate_heading_target")
+    hst = find_node(ght, lambda n: isinstance(n, ast.Assign) and isinstance(n.targets[0], ast.Subscript) and isinstance(n.targets[0].value, ast.Attribute) and n.targets[0].value.attr == "_heading_slugs")
+    if hst is not None:
+        add("c09-slug-registry-rebound-to-single-entry", "C09.R8", base, splice(base.src, hst, "self._heading_slugs = {" + _seg(base, hst.targets[0].slice) + ": " + _seg(base, hst.value) + "}"), "_heading_slugs")
     return out
